@@ -161,6 +161,15 @@ def r06_4(ctx):
     for name, f, callee in chain:
         ok = f is not None and any(callee_is(t, callee) and "serde::ser" in t["callee"] for b, t in f.calls())
         ctx.ob("R06.4", f"{name}->{callee}", ok, f.loc() if f else "", f"{name} goes through {callee}")
+    # one code path also means no second one: every return of Display::fmt lies behind the to_string call, and what is
+    # written to the formatter derives from its result
+    if disp:
+        f = disp[0]
+        tsb = {b for b, t in f.calls() if callee_is(t, "to_string") and "serde::ser" in t["callee"]}
+        esc = f.reachable_from(0, avoid=tsb) & set(f.return_blocks)
+        ctx.ob("R06.4", "Display:no-second-path", bool(tsb) and not esc, f.loc(),
+               "every path through Display::fmt passes to_string" if tsb and not esc else
+               "Display::fmt can return without passing to_string: part of the output is produced by a second code path that need not escape / format like the serializer")
     tw = prog.find("serde::ser::to_writer")
     tp = prog.find("serde::ser::to_string_pretty")
     ctx.ob("R06.4", "to_string_pretty->to_vec_pretty", any(callee_is(t, "to_vec_pretty") for b, t in tp.calls()), tp.loc(), "the pretty variants share the same structure")
